@@ -294,6 +294,10 @@ def rule_field_row(ctx, rule="O9.6", mode="values"):
             @stub
             def validated(interp2, args2, kwargs2):
                 seen["validated"] = args2[0]
+                if format_name == "fixed" and lower is None:
+                    # summary of AbstractFieldFormat.validate_length: in the fixed format it compares len(value) with
+                    # length.lower_limit - a field whose length has not passed the fixed-length ladder cannot validate
+                    interp2.raise_("builtins.TypeError", "'>' not supported between instances of 'int' and 'NoneType'")
                 if args2[0] == "bad":
                     interp2.raise_("cutplace.errors.FieldValueError", "bad example")
                 return args2[0]
@@ -620,4 +624,12 @@ def rule_located_errors(ctx):
 
 from .common import rule_module_state  # noqa: E402
 
-RULES = [rule_row_dispatch, rule_row_order, rule_field_names, rule_field_row, rule_check_row, rule_is_unique_rule, rule_distinct_count_rule, rule_located_errors, rule_module_state]
+def rule_known_types(ctx):
+    """O9.9: "a known type" - every documented field and check type is registered (C20's rule on the class maps)."""
+    from .c20 import rule_builtin_types_are_registered
+
+    ctx.res.minimum("O9.9", 10)
+    rule_builtin_types_are_registered(ctx, "O9.9")
+
+
+RULES = [rule_row_dispatch, rule_row_order, rule_field_names, rule_field_row, rule_check_row, rule_is_unique_rule, rule_distinct_count_rule, rule_located_errors, rule_known_types, rule_module_state]
